@@ -47,6 +47,7 @@ def _rules(leaves="PMGS", loops=(0, 1, 2), wrappers=("parseq", "call", "seq")):
 # alphabets, richest first; the size classes they are used for are chosen in bounds()
 GRAMMARS = {
     "rich": TreeGrammar(_rules()),  # 4 leaves, loop 0/1/2, { }, < { } >, macro call
+    "mid": TreeGrammar(_rules("PMGS", (0, 2))),  # rich without count 1
     "lean": TreeGrammar(_rules("PMG", (0, 2), ("call",))),
     "core": TreeGrammar(_rules("PMG", (2,), ())),
 }
@@ -157,8 +158,7 @@ def _reprepare_in_loop(j):
 def _simpler(t):
     if t[0] == "loop" and t[1] >= 2:
         yield ("loop", t[1] - 1, t[2])
-    if t[0] in ("parseq", "call"):
-        pass  # hoisting already removes the wrapper
+    # (the other wrappers are removed by hoisting their children)
 
 
 _BACKEND = []
@@ -218,27 +218,26 @@ class C12(Check):
         self._shrinker = nestlib.LocalShrinker(self, max_steps=5000)
 
     # ------------------------------------------------------------ space
-    def bounds(self, tier):
-        if tier == "quick":
-            return {
-                "max_nodes": 5,
-                "alphabet_by_nodes": {"0-5": "rich"},
-                "run_jaqal_circuit_max_nodes": 4,
-                "rich": "leaves P M G S; loop 0/1/2; {..}; <{..}>; macro call",
-            }
-        return {
-            "max_nodes": 7,
-            "alphabet_by_nodes": {"0-5": "rich", "6": "lean", "7": "core"},
-            "run_jaqal_circuit_max_nodes": 5,
-            "rich": "leaves P M G S; loop 0/1/2; {..}; <{..}>; macro call",
-            "lean": "leaves P M G; loop 0/2; macro call",
-            "core": "leaves P M G; loop 2",
-        }
+    _DOC = {
+        "rich": "leaves P M G S; loop 0/1/2; {..}; <{..}>; macro call",
+        "mid": "leaves P M G S; loop 0/2; {..}; <{..}>; macro call",
+        "lean": "leaves P M G; loop 0/2; macro call",
+        "core": "leaves P M G; loop 2",
+    }
 
     def _plan(self, tier):
         if tier == "quick":
-            return [(n, "rich") for n in range(0, 6)]
+            return [(n, "rich") for n in range(0, 5)] + [(5, "mid")]
         return [(n, "rich") for n in range(0, 6)] + [(6, "lean"), (7, "core")]
+
+    def bounds(self, tier):
+        plan = self._plan(tier)
+        return {
+            "max_nodes": plan[-1][0],
+            "alphabet_by_nodes": {str(n): g for n, g in plan},
+            "alphabets": {g: self._DOC[g] for g in sorted({g for _n, g in plan})},
+            "run_jaqal_circuit_max_nodes": 4 if tier == "quick" else 5,
+        }
 
     def all_cases(self, tier):
         """a case = (also run run_jaqal_circuit? 1/0, forest)"""
